@@ -187,7 +187,7 @@ def rule_delta(ctx: Ctx) -> RuleResult:
     """The delta generators walk the old canvas with an iterator next to the new one."""
     p = ctx.p
     rr = RuleResult("GENSTOP", "C02.6", "the delta generators never let StopIteration escape (next() with a default or handled), and each running cursor advances only by the extent of its own stream's element", floor=4)
-    for q, pairs in ((f"{CV}.shards_delta", (("done", "num_rows"), ("other_done", "other_num_rows"))), (f"{CV}.shard_cviews_delta", (("cols", "cv[2]"), ("other_cols", "other_cv[2]")))):
+    for q in (f"{CV}.shards_delta", f"{CV}.shard_cviews_delta"):
         fi = p.func(q)
         if not any(isinstance(n, (ast.Yield, ast.YieldFrom)) for n in fi.own_nodes()):
             raise AnalysisError(f"{q} is no longer a generator")
@@ -201,20 +201,29 @@ def rule_delta(ctx: Ctx) -> RuleResult:
                 rr.inst(f"{short(fi)}:{norm(c, 40)}@{c.lineno - fi.node.lineno}", True, {"function": short(fi), "call": norm(c, 50), "has_default": len(c.args) > 1})
                 if len(c.args) < 2 and id(c) not in handled:
                     rr.add(finding("GENSTOP", fi, c, f"`{norm(c, 40)}` inside the generator {fi.name}() has no default: when the old canvas runs out of shards / cviews first, StopIteration becomes RuntimeError('generator raised StopIteration') out of content_delta()", construct=f"bare {norm(c, 40)} in generator"))
-        for counter, elem in pairs:
-            for n in fi.own_nodes():
-                tgt = None
-                if isinstance(n, ast.AugAssign) and isinstance(n.target, ast.Name) and n.target.id == counter:
-                    tgt = n
-                    ok = isinstance(n.op, ast.Add) and ast.unparse(n.value) == elem
-                elif isinstance(n, ast.Assign) and any(isinstance(t, ast.Name) and t.id == counter for t in n.targets):
-                    tgt = n
-                    ok = isinstance(n.value, ast.Constant) and n.value.value == 0
-                if tgt is None:
-                    continue
+        # running cursors, by role: integer locals that start at 0 and are advanced with `+=` by a stream element's
+        # extent.  Each cursor has exactly one extent variable (its own stream's), no two cursors share one, and no
+        # cursor is ever assigned anything but its start value 0
+        augs = [n for n in fi.own_nodes() if isinstance(n, ast.AugAssign) and isinstance(n.target, ast.Name) and isinstance(n.op, ast.Add)]
+        cursors = {n.target.id for n in augs}
+        extents = {}
+        for n in augs:
+            rr.inst(f"{short(fi)}:{norm(n, 40)}", True)
+            extents.setdefault(n.target.id, set()).add(ast.unparse(n.value))
+        for c_, ex in sorted(extents.items()):
+            if len(ex) > 1:
+                n = next(a for a in augs if a.target.id == c_)
+                rr.add(finding("GENSTOP", fi, n, f"the cursor `{c_}` is advanced by different quantities ({sorted(ex)}): it may only advance by the extent of its own stream's current element, otherwise the two cursors drift and a re-used canvas at a different position is reported as unchanged", construct=f"cursor {c_} advanced by {sorted(ex)}"))
+        shared = [e for e in {x for ex in extents.values() for x in ex} if sum(1 for ex in extents.values() if e in ex) > 1]
+        for e in shared:
+            n = next(a for a in augs if ast.unparse(a.value) == e)
+            rr.add(finding("GENSTOP", fi, n, f"two cursors are advanced by the same quantity `{e}`: each cursor has its own stream", construct=f"cursors share the extent {e}"))
+        for n in fi.own_nodes():
+            if isinstance(n, ast.Assign) and any(isinstance(t, ast.Name) and t.id in cursors for t in n.targets):
                 rr.inst(f"{short(fi)}:{norm(n, 40)}", True)
-                if not ok:
-                    rr.add(finding("GENSTOP", fi, n, f"`{norm(n, 50)}`: the cursor `{counter}` may only start at 0 and advance by `{elem}` (the extent of its own stream's current element); any other update lets the two cursors drift, and a re-used canvas at a different position is reported as unchanged", construct=f"cursor {counter} updated by {norm(n, 40)}"))
+                if not (isinstance(n.value, ast.Constant) and n.value.value == 0):
+                    c_ = next(t.id for t in n.targets if isinstance(t, ast.Name) and t.id in cursors)
+                    rr.add(finding("GENSTOP", fi, n, f"`{norm(n, 50)}`: the cursor `{c_}` may only start at 0 and advance by the extent of its own stream's current element; any other update lets the two cursors drift, and a re-used canvas at a different position is reported as unchanged", construct=f"cursor {c_} updated by {norm(n, 40)}"))
     return rr
 
 
